@@ -22,7 +22,12 @@ PROFILE = {
     "placements": True,
 }
 HOOKS = {"on_metric": "metric", "on_log": "log", "before_sleep": "before"}
-FAULTS = ["ValueError", "RuntimeError", "KeyError", "StopIteration", "AbortRetryError", "RetryExhaustedError", "CircuitOpenError", "HookFault", "TimeoutError"]
+FAULTS = [
+    "ValueError", "RuntimeError", "KeyError", "StopIteration", "AbortRetryError", "RetryExhaustedError", "CircuitOpenError", "HookFault",
+    "TimeoutError", "MemoryError", "RecursionError", "OSError", "ZeroDivisionError", "AttributeError", "TypeError", "LookupError",
+    "NotImplementedError", "UnicodeError", "ImportError", "StopAsyncIteration", "UserWarning", "BufferError", "EOFError",
+    "ConnectionResetError", "ExceptionGroup", "InvalidStateError",
+]  # every one derives from Exception
 BREAKER_ENTRIES = ["Policy.call", "Policy.execute", "AsyncPolicy.call", "AsyncPolicy.execute", "Policy.noretry.call", "AsyncPolicy.noretry.execute"]
 
 
@@ -46,7 +51,8 @@ def check(case: dict) -> Verdict:
         sites = [(hook, j) for j in range(n)] + ([(hook, "always")] if n else [])
         for site in sites:
             # every site gets two exception types (rotating through the list), always-raising gets one more
-            picks = [FAULTS[(rot + (site[1] if isinstance(site[1], int) else 7) * 2 + d) % len(FAULTS)] for d in (0, 1)]
+            width = 5 if site[1] == "always" else 2
+            picks = [FAULTS[(rot + (site[1] if isinstance(site[1], int) else 7) * 2 + d) % len(FAULTS)] for d in range(width)]
             for ft in picks:
                 env = run_case(case, entry, faults={site: ft})
                 v.evals += 1
@@ -103,8 +109,8 @@ PROP = Property(
     rule=(
         "For each Hypothesis-generated case the run with silent hooks fixes how often on_metric, on_log and before_sleep "
         "(sync / async / awaitable) are invoked; faults are then enumerated: hook h raises at invocation j for EVERY j, and at "
-        "every invocation ('always'), with two exception types per site rotating through ValueError, RuntimeError, KeyError, "
-        "StopIteration, AbortRetryError, RetryExhaustedError, CircuitOpenError, TimeoutError and a custom Exception; sync and "
+        "every invocation ('always'), with two (five for 'always') exception types per site rotating through 26 Exception "
+        "subclasses (ValueError ... MemoryError, RecursionError, ExceptionGroup, StopAsyncIteration, warnings, library errors); sync and "
         "async, with and without breaker events (incl. the half-open admission event), with and without timeline capture. "
         "Oracle: the complete observable trace (operation invocations, sleeps, strategy calls, the other sink, timeline, "
         "breaker and budget calls, delivered result) equals the silent-hook trace. Non-trivial = a case with >= 3 hook "
